@@ -1,9 +1,12 @@
 (* Correspondence suite "state.liveness" (C05, connected route): the history is written to
    the socket of a connected client.  args as for "state.history" (DrvC04.v); route is
    "conn", "conn-norecover" (no SASL configured) or "conn-sasl" (SASL PLAIN acct/secret).
-   "state.stall" (finding handler-injected-error-self-blocks, route "burst-sasl"): the same
-   model; every generated history contains a failing SASL reply, so the prediction is
-   "disconnected".
+   "state.stall" (finding handler-injected-error-self-blocks; routes "burst-sasl" and
+   "burst-sts", the latter with no SASL and strict transport security enabled): the history
+   arrives in one burst with the receive queue full.  The sequential model says the client
+   disconnects with an error (a handler queues an ERROR); the code as it is either does that,
+   or drops the queued ERROR after 30 s and answers the PING that follows.  Both are the
+   observation "ended" (the harness reports "HUNG" when neither happens).
    Observation: "disconnected" when some event makes Connect return an error (an ERROR
    from the server, or one a handler queued), else the state dump of DrvC04.v. *)
 Require Import Bytes AMap Names State ClientStep DrvC04.
@@ -41,6 +44,18 @@ Definition run_liveness (args : list str) : str :=
   | _ => bs "?bad-args"
   end.
 
+Definition run_stall (args : list str) : str :=
+  match args with
+  | route :: nick :: usr :: rest =>
+      let cfg := live_cfg route nick usr in
+      match client_disconnects cfg (client_init StsState.sts_init) (decode_events (length rest) rest) with
+      | Panic => bs "PANIC"
+      | Ok _ => bs "ended"
+      end
+  | _ => bs "?bad-args"
+  end.
+
 Definition run_C05 (suite : str) (args : list str) : option str :=
-  if streqb suite (bs "state.liveness") || streqb suite (bs "state.stall") then Some (run_liveness args)
+  if streqb suite (bs "state.liveness") then Some (run_liveness args)
+  else if streqb suite (bs "state.stall") then Some (run_stall args)
   else None.
